@@ -9,3 +9,9 @@ import VibeProof.Props.C06
 #print axioms VibeProof.C06.C06_additive_aggregate
 #print axioms VibeProof.C06.C06_sql_not
 #print axioms VibeProof.C06.C06_sql_is_null
+#print axioms VibeProof.C06.C06_group_partition
+#print axioms VibeProof.C06.C06_group_counts_additive
+#print axioms VibeProof.C06.C06_group_keys
+#print axioms VibeProof.C06.C06_having_partition
+#print axioms VibeProof.C06.C06_sql_where_is_filter3
+#print axioms VibeProof.C06.C06_sql_partition
